@@ -142,6 +142,8 @@ def _worker_run(args):
         res = ShardResult()
         _W['mod'].run_shard(shard, _W['tier'], res)
         out = res.pack()
+        for v in out['violations']:
+            v['shard'] = shard
         out['error'] = None
     except BaseException:
         out = ShardResult().pack()
@@ -266,9 +268,9 @@ def run_check(prop_name: str, tier: str, repo: str, jobs: int, seed: int, verbos
     reported = []
     nondeterministic = []
     for n, (sig, v) in enumerate(list(sigs.items())[:8], 1):
-        ok, detail = confirm_in_fresh_process(prop_name, repo, v)
+        ok, detail = confirm_in_fresh_process(prop_name, repo, v, tier)
         if ok:
-            path = write_replay(pid, n, v, detail, repo)
+            path = write_replay(pid, n, v, detail, repo, tier)
             reported.append(path)
         else:
             nondeterministic.append((v, detail))
@@ -296,34 +298,49 @@ def run_check(prop_name: str, tier: str, repo: str, jobs: int, seed: int, verbos
     return 0
 
 
-def confirm_in_fresh_process(prop_name, repo, v):
-    """Re-execute the single failing case in a new interpreter; it must fail with the same clause."""
-    with tempfile.NamedTemporaryFile('w', suffix='.json', delete=False, dir='/dev/shm'
-                                     if os.path.isdir('/dev/shm') else None) as f:
-        json.dump(dict(case=v['case'], clause=v['clause']), f)
-        path = f.name
-    try:
-        env = dict(os.environ, PYTHONHASHSEED='0', PYTHONDONTWRITEBYTECODE='1')
-        p = subprocess.run([PY, os.path.join(VERIF, 'mc', 'main.py'), prop_name, '--replay', path,
-                            '--repo', repo, '--json'], capture_output=True, text=True, env=env, timeout=3600)
+def confirm_in_fresh_process(prop_name, repo, v, tier='quick'):
+    """Re-execute the failing case in a new interpreter; it must fail with the same clause.
+    First the single case alone; if that does not reproduce, the whole (deterministic) shard that led to it:
+    a violation that needs the preceding cases of its shard is a history-dependent defect of the code under
+    test, and is reported as such (v['history_dependent'] = True) only if the shard replay reproduces it."""
+    def run(doc):
+        with tempfile.NamedTemporaryFile('w', suffix='.json', delete=False, dir='/dev/shm'
+                                         if os.path.isdir('/dev/shm') else None) as f:
+            json.dump(doc, f)
+            path = f.name
         try:
-            res = json.loads(p.stdout.strip().splitlines()[-1])
-        except Exception:
-            return False, f"replay produced no verdict (rc={p.returncode}): {p.stdout[-300:]} {p.stderr[-300:]}"
-        clauses = [x['clause'] for x in res]
-        if v['clause'] in clauses:
-            return True, [x for x in res if x['clause'] == v['clause']][0]
-        return False, f"clauses in fresh process: {clauses}"
-    finally:
-        os.unlink(path)
+            env = dict(os.environ, PYTHONHASHSEED='0', PYTHONDONTWRITEBYTECODE='1')
+            p = subprocess.run([PY, os.path.join(VERIF, 'mc', 'main.py'), prop_name, '--replay', path,
+                                '--repo', repo, '--json'], capture_output=True, text=True, env=env, timeout=7200)
+            try:
+                return json.loads(p.stdout.strip().splitlines()[-1]), None
+            except Exception:
+                return None, f"replay produced no verdict (rc={p.returncode}): {p.stdout[-300:]} {p.stderr[-300:]}"
+        finally:
+            os.unlink(path)
+
+    res, err = run(dict(case=v['case'], clause=v['clause']))
+    if res is not None and v['clause'] in [x['clause'] for x in res]:
+        return True, [x for x in res if x['clause'] == v['clause']][0]
+    first = err or f"clauses in fresh process: {[x['clause'] for x in res]}"
+    if v.get('shard') is not None:
+        res2, err2 = run(dict(case=v['case'], clause=v['clause'], shard=v['shard'], tier=tier, history_dependent=True))
+        if res2 is not None and v['clause'] in [x['clause'] for x in res2]:
+            v['history_dependent'] = True
+            d = [x for x in res2 if x['clause'] == v['clause']][0]
+            d['history_dependent'] = 'reproduces only after the preceding cases of its shard (replayed in a fresh interpreter)'
+            return True, d
+        first += f"; shard replay: {err2 or [x['clause'] for x in (res2 or [])]}"
+    return False, first
 
 
-def write_replay(pid, n, v, detail, repo):
+def write_replay(pid, n, v, detail, repo, tier='quick'):
     d = os.path.join(OUT, 'replays', pid)
     os.makedirs(d, exist_ok=True)
     path = os.path.join(d, f'{n}.json')
     with open(path, 'w') as f:
         json.dump(dict(property=pid, clause=v['clause'], attrs=v['attrs'], case=v['case'],
+                       shard=v.get('shard'), tier=tier, history_dependent=bool(v.get('history_dependent')),
                        expected=v.get('expected'), observed=v.get('observed'), note=v.get('note'),
                        confirmed_in_fresh_process=detail,
                        how_to_replay=f"cd /verif && ./check {pid} --replay {os.path.relpath(path, VERIF)}"),
@@ -366,19 +383,29 @@ def run_replay(prop_name, repo, path, as_json):
     with open(path) as f:
         doc = json.load(f)
     case = doc['case']
+
+    def execute():
+        if doc.get('history_dependent') and doc.get('shard') is not None:
+            res = ShardResult()
+            res.MAX_VIOL = 10 ** 9
+            mod.run_shard(doc['shard'], doc.get('tier', 'quick'), res)
+            want = json.dumps(case, sort_keys=True)
+            return [v for v in res.violations if json.dumps(v['case'], sort_keys=True, default=repr) == want]
+        return mod.replay(case)
+
     if as_json:
         # silence the library, print one JSON line
         devnull = os.open(os.devnull, os.O_WRONLY)
         saved = os.dup(1)
         os.dup2(devnull, 1)
         try:
-            viols = mod.replay(case)
+            viols = execute()
         finally:
             os.dup2(saved, 1)
         print(json.dumps([dict(clause=v['clause'], expected=_j(v.get('expected')),
                                observed=_j(v.get('observed'))) for v in viols], default=repr))
         return 0
-    viols = mod.replay(case)
+    viols = execute()
     print(f"replay of {path}: case={json.dumps(case)[:600]}")
     if not viols:
         print("no violation on this tree")
